@@ -149,7 +149,7 @@ func collectAccountsFromResolved(resolved *include.ResolvedJournal) *AccountInde
 		}
 	}
 
-	for _, journal := range resolved.Files {
+	for _, journal := range resolved.OrderedFiles() {
 		for _, name := range CollectAccounts(journal).All {
 			if !seen[name] {
 				seen[name] = true
@@ -174,7 +174,7 @@ func collectPayeesFromResolved(resolved *include.ResolvedJournal) []string {
 		}
 	}
 
-	for _, journal := range resolved.Files {
+	for _, journal := range resolved.OrderedFiles() {
 		for _, p := range CollectPayees(journal) {
 			if !seen[p] {
 				seen[p] = true
@@ -199,7 +199,7 @@ func collectCommoditiesFromResolved(resolved *include.ResolvedJournal) []string 
 		}
 	}
 
-	for _, journal := range resolved.Files {
+	for _, journal := range resolved.OrderedFiles() {
 		for _, c := range CollectCommodities(journal) {
 			if !seen[c] {
 				seen[c] = true
@@ -224,7 +224,7 @@ func collectTagsFromResolved(resolved *include.ResolvedJournal) []string {
 		}
 	}
 
-	for _, journal := range resolved.Files {
+	for _, journal := range resolved.OrderedFiles() {
 		for _, t := range CollectTags(journal) {
 			if !seen[t] {
 				seen[t] = true
@@ -258,7 +258,7 @@ func collectTagValuesFromResolved(resolved *include.ResolvedJournal) map[string]
 	}
 
 	mergeTagValues(resolved.Primary)
-	for _, journal := range resolved.Files {
+	for _, journal := range resolved.OrderedFiles() {
 		mergeTagValues(journal)
 	}
 
@@ -282,7 +282,7 @@ func collectDatesFromResolved(resolved *include.ResolvedJournal) []string {
 	}
 
 	mergeDates(resolved.Primary)
-	for _, journal := range resolved.Files {
+	for _, journal := range resolved.OrderedFiles() {
 		mergeDates(journal)
 	}
 
@@ -325,7 +325,7 @@ func collectAccountCountsFromResolved(resolved *include.ResolvedJournal) map[str
 		}
 	}
 	mergeCounts(resolved.Primary)
-	for _, journal := range resolved.Files {
+	for _, journal := range resolved.OrderedFiles() {
 		mergeCounts(journal)
 	}
 	return counts
@@ -342,7 +342,7 @@ func collectPayeeCountsFromResolved(resolved *include.ResolvedJournal) map[strin
 		}
 	}
 	mergeCounts(resolved.Primary)
-	for _, journal := range resolved.Files {
+	for _, journal := range resolved.OrderedFiles() {
 		mergeCounts(journal)
 	}
 	return counts
@@ -359,7 +359,7 @@ func collectCommodityCountsFromResolved(resolved *include.ResolvedJournal) map[s
 		}
 	}
 	mergeCounts(resolved.Primary)
-	for _, journal := range resolved.Files {
+	for _, journal := range resolved.OrderedFiles() {
 		mergeCounts(journal)
 	}
 	return counts
@@ -376,7 +376,7 @@ func collectTagCountsFromResolved(resolved *include.ResolvedJournal) map[string]
 		}
 	}
 	mergeCounts(resolved.Primary)
-	for _, journal := range resolved.Files {
+	for _, journal := range resolved.OrderedFiles() {
 		mergeCounts(journal)
 	}
 	return counts
@@ -389,7 +389,7 @@ func collectDeclaredAccountsFromResolved(resolved *include.ResolvedJournal) map[
 			declared[k] = true
 		}
 	}
-	for _, journal := range resolved.Files {
+	for _, journal := range resolved.OrderedFiles() {
 		for k := range collectDeclaredAccounts(journal) {
 			declared[k] = true
 		}
@@ -505,7 +505,7 @@ func collectDeclaredCommoditiesFromResolved(resolved *include.ResolvedJournal) m
 			declared[k] = true
 		}
 	}
-	for _, journal := range resolved.Files {
+	for _, journal := range resolved.OrderedFiles() {
 		for k := range collectDeclaredCommodities(journal) {
 			declared[k] = true
 		}
